@@ -12,11 +12,13 @@ import (
 	slipelliptic "github.com/wollac/iota-crypto-demo/pkg/slip10/elliptic"
 	"pgregory.net/rapid"
 
+	"verifharness/fc"
 	"verifharness/h"
 	"verifharness/ref/secp"
 )
 
 func TestMain(m *testing.M) {
+	h.FirstCallsChild(fc.Secp256k1()) // never returns in a first-call child process
 	for _, c := range []*secp.Curve{secp.K1, secp.P256} {
 		if err := c.SelfCheck(); err != nil {
 			fmt.Println("VERIF-INFRA reference self-check failed:", err)
@@ -535,3 +537,6 @@ func TestConcurrent(t *testing.T) {
 func FuzzGenShift(f *testing.F) {
 	h.FuzzSub(f, h.Sub[shiftCase]{Prop: "C08", Name: "shift-commutes", Gen: genShift, Check: checkShift})
 }
+
+// which public entry point is called first in a process (and by how many goroutines at once)
+func TestFirstCalls(t *testing.T) { h.FirstCallsSub(t, "C08", fc.Secp256k1(), 6) }
